@@ -13,8 +13,8 @@ func init() {
 	register(&propInfo{
 		ID:          "C06",
 		Run:         runC06,
-		MinObl:      20,
-		Explanation: "Decided: R1 lookup-by-signature is followed by full validation — code, refresh and device flows (validate or redeem layer) and both introspection paths reach success / Merge only after the matching Validate*(ctx, ·, raw) returned nil for the string whose *Signature was the lookup key (frozen exception: TokenRevocationHandler.RevokeToken, outcome is deactivation restricted to the owning client); R2 HMAC validation shape: HMACStrategy.Validate succeeds only for some key of append([global], rotated…) with len(key) ≥ 32, a token cut into two non-empty parts, both parts base64-decoded without error and hmac.Equal(MAC(decoded key part, key), decoded signature part); Generate refuses secrets shorter than 32 bytes, asks the random source for ≥ 32 bytes (clamp), the random source is io.ReadFull(crypto/rand.Reader), math/rand is imported nowhere in the module, and the returned signature is the encoded MAC of the returned random part; R3 Signature returns the second of exactly two dot-separated parts (JWT strategy: the third of exactly three); R4 JWT: jwt.UnsafeAllowNoneSignatureType is referenced only by the request-object key function (and package jwt); ParseWithClaims returns a nil error / sets valid only if go-jose verified the signature with the key or (method none ∧ the key is the opt-in constant) and Claims.Valid() is nil; DefaultSigner.Decode/Validate hand only rsa.PublicKey / ecdsa.PublicKey values or OpaqueSigner.Public().Key to the parser. NOT decided: cryptographic strength, uniqueness of minted values (probabilistic), go-jose's verification, the configured hash function.",
+		MinObl:      50,
+		Explanation: "Decided: R1 lookup-by-signature is followed by full validation — code, refresh and device flows (validate or redeem layer) and both introspection paths reach success / Merge only after the matching Validate*(ctx, ·, raw) returned nil for the string whose *Signature was the lookup key (frozen exception: TokenRevocationHandler.RevokeToken, outcome is deactivation restricted to the owning client); R2 HMAC validation shape: HMACStrategy.Validate succeeds only for some key of append([global], rotated…) with len(key) ≥ 32, a token cut into two non-empty parts, both parts base64-decoded without error and hmac.Equal(MAC(decoded key part, key), decoded signature part); Generate refuses secrets shorter than 32 bytes, asks the random source for ≥ 32 bytes (clamp), the random source is io.ReadFull(crypto/rand.Reader), math/rand is imported nowhere in the module, and the returned signature is the encoded MAC of the returned random part; R3 Signature returns the second of exactly two dot-separated parts (JWT strategy: the third of exactly three); R4 JWT: jwt.UnsafeAllowNoneSignatureType is referenced only by the request-object key function (and package jwt); ParseWithClaims returns a nil error / sets valid only if go-jose verified the signature with the key or (method none ∧ the key is the opt-in constant) and Claims.Valid() is nil; DefaultSigner.Decode/Validate hand only rsa.PublicKey / ecdsa.PublicKey values or OpaqueSigner.Public().Key to the parser. R2 (readers) every other HMACStrategy method drawing the global secret (GenerateHMACForString) succeeds only with a secret of at least 32 bytes; R5 every Create{Access,Refresh}TokenSession / CreateAuthorizeCodeSession / CreateDeviceAuthSession key is the signature returned by the Generate call of that credential kind on the same path (refresh sessions additionally carry that access signature), and the credential written into the response comes from the same Generate call whose signature was stored; R6 the pushed-authorization request_uri stored and returned is prefix + the uncut encoding of at least 32 bytes from the random source obtained without error. NOT decided: cryptographic strength, uniqueness of minted values (probabilistic), go-jose's verification, the configured hash function.",
 	})
 }
 
